@@ -51,7 +51,7 @@ TRUSTED_EXTRA = c02.TRUSTED_EXTRA + ["numpy min/median", "pandas Series arithmet
 
 KEY_ONDISK = "ondisk-calibrate:target-column-requested-as-str"
 
-SC_KINDS = ["f32", "i64", "strided", "ser", "ser_perm", "ser_gap", "ser_str", "ser_i64_perm"]
+SC_KINDS = ["f32", "i64", "strided", "ser", "ser_perm", "ser_gap", "ser_str", "ser_i64_perm", "u8", "u64"]
 TG_KINDS = ["bool", "int", "float", "ser", "ser_perm", "ser_int_gap"]
 
 _DIRECT_BY_ID = {}    # the direct cases of the last gen() (their model calls are made in one driver batch)
@@ -159,7 +159,7 @@ def _gen_direct_more(ctx):
             n = rng.randint(2, 80)
             sc, lab = _rand_vec(rng, n)
             c = {"fn": "cal", "scores": sc, "labels": lab, "thr": rng.choice(["0.05", "0.1", "0.25", "0.5"]),
-                 "half": sk not in ("i64", "ser_i64_perm") and rng.random() < 0.3, "sc_kind": sk, "tg_kind": tk,
+                 "half": sk not in ("i64", "ser_i64_perm", "u8", "u64") and rng.random() < 0.3, "sc_kind": sk, "tg_kind": tk,
                  "idx_seed": rng.randint(0, 10 ** 6), "tags": ["direct", "container", "scores:" + sk, "targets:" + tk]}
             if rng.random() < 0.2:
                 c["desc"] = rng.random() < 0.5
@@ -172,7 +172,7 @@ def _gen_direct_more(ctx):
     for n in (2, 3):
         for sc in itertools.product(range(3), repeat=n):
             for lab in itertools.product((0, 1), repeat=n):
-                for sk, tk in (("ser_perm", "bool"), ("f64", "int"), ("i64", "ser_int_gap"), ("ser_perm", "ser_perm")):
+                for sk, tk in (("ser_perm", "bool"), ("f64", "int"), ("i64", "ser_int_gap"), ("ser_perm", "ser_perm"), ("u8", "bool")):
                     cases.append({"fn": "cal", "scores": list(sc), "labels": list(lab), "thr": "0.5", "half": False, "sc_kind": sk,
                                   "tg_kind": tk, "idx_seed": n + sum(sc), "tags": ["direct", "container", "exhaustive", "scores:" + sk, "targets:" + tk]})
     # the threshold argument: numpy float64, the int 1, 0.0 (nothing is ever accepted: the q-value (D+1)/T is positive)
@@ -396,6 +396,11 @@ def _mk_scores(c, vals):
         return a
     if kind == "i64":
         return np.array([int(v) for v in vals], dtype=np.int64)
+    if kind in ("u8", "u64"):
+        # unsigned scores (an estimator that returns ranks / counts): `scores - threshold` wraps for every score below
+        # the threshold unless the code leaves the unsigned type first
+        assert all(int(v) == v and 0 <= v < 256 for v in vals)
+        return np.array([int(v) for v in vals], dtype={"u8": np.uint8, "u64": np.uint64}[kind])
     if kind == "strided":
         return np.repeat(np.array(fl, dtype=float), 2)[::2]
     if kind == "ser":
